@@ -6,7 +6,7 @@ SPEC = {
     "bins": ["c01"],
     "model_targets": ["Pat/C01Check.vo"],
     "proof_targets": ["Pat/MatcherProofs.vo", "Pat/ModifiersProofs.vo", "Pat/MatchListProofs.vo",
-                      "Pat/C01CheckProofs.vo", "Pat/Base64Proofs.vo", "Pat/ChainProofs.vo", "Pat/PipelineProofs.vo", "Pat/AtomsProofs.vo", "Pat/PipelineB64Proofs.vo"],
+                      "Pat/C01CheckProofs.vo", "Pat/Base64Proofs.vo", "Pat/ChainProofs.vo", "Pat/PipelineProofs.vo", "Pat/AtomsProofs.vo", "Pat/PipelineB64Proofs.vo", "Pat/ChainRunProofs.vo"],
     "assumptions": [
         "the specification of occurrences (Pat/Sem.v, Pat/Modifiers.v) is written from text_patterns.md, hex_patterns.md, regexps.md, differences.md; "
         "where they are silent it accepts the implementation: the neighbouring character of a wide string for fullword, which of several genuine "
